@@ -529,11 +529,18 @@ pub fn run(cfg: &Cfg) -> i32 {
             return crate::c07s::replay(cfg, path, c);
         }
         let s: Scen = serde_json::from_value(c["scen"].clone()).expect("scen");
-        let r = match c["kind"].as_str().unwrap_or("bdd") {
-            "bdd" => scen_isolated::<BddK>(&s),
-            "bcdd" => scen_isolated::<BcddK>(&s),
-            _ => scen_isolated::<ZbddK>(&s),
-        };
+        // free-running threads: several attempts
+        let mut r = Ok(CStat::default());
+        for _ in 0..8 {
+            r = match c["kind"].as_str().unwrap_or("bdd") {
+                "bdd" => scen_isolated::<BddK>(&s),
+                "bcdd" => scen_isolated::<BcddK>(&s),
+                _ => scen_isolated::<ZbddK>(&s),
+            };
+            if r.is_err() {
+                break;
+            }
+        }
         return match r {
             Ok(_) => {
                 println!("replay: scenario passes (free-running schedules: best effort)");
